@@ -117,7 +117,7 @@ def signing_is_total(ctx, rule):
         for ev in raising:
             callee = ev[2].split("[")[0].split("<")[0] if isinstance(ev[2], str) else ""
             a0 = ev[3][0] if ev[3] else None
-            if callee in vals and (a0 in (w.signable, w.priv) or is_lit(a0, "dict")):
+            if callee in vals and (a0 in (w.signable, w.priv) or is_lit(a0, "dict") or _rooted(a0, w.priv)):
                 cause = "validation of %s" % ("the key" if a0 == w.priv else "the envelope" if a0 == w.signable else "the new entry")
                 break
         if cause is None and raising:
@@ -127,9 +127,12 @@ def signing_is_total(ctx, rule):
         if cause is None and x.origin == "explicit" and own_site(eng, x.chain[-1], "signing.sign_signable"):
             # an explicit refusal guarded by a validator predicate: `if not is_signable(signable): raise`
             for f in set(p.facts) | set(x.conds):
-                if f[0] == "ret" and f[2] is False and is_call(f[1]) and f[1][1].split("[")[0].split("<")[0] in vals and f[1][2]:
+                fq = f[1][1].split("[")[0].split("<")[0] if f[0] == "ret" and is_call(f[1]) else ""
+                if f[0] == "ret" and f[2] is False and (fq in vals or fq[5:].startswith(PIPELINE_CLASSES)) and f[1][2]:
                     a0 = f[1][2][0]
-                    if a0 in (w.signable, w.priv) or (isinstance(a0, tuple) and a0 and a0[0] in ("call", "lit")):
+                    if fq[5:].startswith(PIPELINE_CLASSES) and not any(_rooted(a, w.priv) or _mentions(a, w.priv) for a in f[1][2]):
+                        continue  # (a key comparison that is not about the key argument)
+                    if a0 in (w.signable, w.priv) or _rooted(a0, w.priv) or _mentions(a0, w.priv) or (isinstance(a0, tuple) and a0 and a0[0] in ("call", "lit")):
                         cause = "validation of %s (predicate %s)" % ("the key" if a0 == w.priv else "the envelope" if a0 == w.signable else "the new entry", f[1][1][5:])
                         break
         if cause is None and x.origin == "implicit" and len(x.chain) > 1 and (x.chain[-1].fn in pipeline or x.chain[-1].fn.startswith(PIPELINE_CLASSES)):
@@ -159,7 +162,8 @@ def sign_signable_rules(ctx, rule):
     for p in w.returns:
         n_paths += 1
         st = State(facts=p.facts)
-        keyt = st.types(w.priv)
+        signer = w.signer_on(p)
+        keyt = st.types(signer)
         if not (keyt is not None and all("Ed25519P" in t or t.startswith("obj:common.P") for t in keyt)) or envelope(st, w.signable):
             agg["gates"] = False
         evs = [ev for ev, _d in flatten_events(p.events)]
@@ -168,9 +172,9 @@ def sign_signable_rules(ctx, rule):
         # removing the signer's own entry first (pop / del under its own key) changes nothing else
         own_sigs = SubC(w.signable, "signatures")
         def _own_removal(ev0):
-            if ev0[0] == "mutcall" and ev0[2] == own_sigs and ev0[3] in ("pop",) and ev0[4] and pubhex_of_private(eng.expand(ev0[4][0]), w.priv):
+            if ev0[0] == "mutcall" and ev0[2] == own_sigs and ev0[3] in ("pop",) and ev0[4] and pubhex_of_private(eng.expand(ev0[4][0]), signer, st):
                 return True
-            return ev0[0] == "del" and isinstance(ev0[2], tuple) and ev0[2][0] == "sub" and ev0[2][1] == own_sigs and pubhex_of_private(eng.expand(ev0[2][2]), w.priv)
+            return ev0[0] == "del" and isinstance(ev0[2], tuple) and ev0[2][0] == "sub" and ev0[2][1] == own_sigs and pubhex_of_private(eng.expand(ev0[2][2]), signer, st)
 
         stores = [ev0 for ev0 in stores if not _own_removal(ev0)]
         # map.update({k: v}) and map = {**map, k: v}: the same as the stores map[k] = v
@@ -189,7 +193,7 @@ def sign_signable_rules(ctx, rule):
             continue
         ev = stores[0]
         tgt, val = ev[2], ev[3]
-        if not (tgt[1] == SubC(w.signable, "signatures") and pubhex_of_private(eng.expand(tgt[2]), w.priv)):
+        if not (tgt[1] == SubC(w.signable, "signatures") and pubhex_of_private(eng.expand(tgt[2]), signer, st)):
             agg["target"] = False
             notes["target"] = "stored at %s" % show(tgt)[:120]
         sig = entry_dict(eng.expand(val), evs[: evs.index(ev)] if ev in evs else evs)
@@ -198,7 +202,7 @@ def sign_signable_rules(ctx, rule):
             agg["value"] = False
             notes["value"] = "the entry stored is a mutable default argument: one object shared by every call (and every envelope signed)"
             continue
-        good, why2 = (False, "entry is %s" % show(val)[:80]) if sig is None else signature_hex(sig, w.priv, msg)
+        good, why2 = (False, "entry is %s" % show(val)[:80]) if sig is None else signature_hex(sig, signer, msg)
         if not good:
             agg["value"] = False
             notes["value"] = why2
@@ -224,7 +228,7 @@ def sign_signable_rules(ctx, rule):
     def _own_slot(x):
         if x[0] != w.sm.params[0] or not x[1] or x[1][0] != ("sub", C("signatures")):
             return False
-        if len(x[1]) == 2 and x[1][1][0] == "sub" and pubhex_of_private(eng.expand(x[1][1][1]), w.priv):
+        if len(x[1]) == 2 and x[1][1][0] == "sub" and any(pubhex_of_private(eng.expand(x[1][1][1]), w.signer_on(p_), State(facts=p_.facts)) for p_ in w.returns):
             return True
         # map.update({own key: entry}) / map = {**map, own key: entry}: judged item by item above
         if len(x[1]) == 1 and x[3] in bulk_sites:
